@@ -100,6 +100,25 @@ func (env *Env) evalBool(e ast.Expr) string {
 	return v.L[0]
 }
 
+// antecedentOf: for a clause of the form A ==> B, the formula A (audit of dead antecedents).
+func (env *Env) antecedentOf(e ast.Expr) (string, bool) {
+	for {
+		p, ok := e.(*ast.ParenExpr)
+		if !ok {
+			break
+		}
+		e = p.X
+	}
+	var parts []ast.Expr
+	flattenOr(e, &parts)
+	for i, p := range parts {
+		if isMarker(p, "__IMP__") && i > 0 {
+			return env.evalOrChain(parts[:i]), true
+		}
+	}
+	return "", false
+}
+
 func exprString(e ast.Expr) string {
 	return types.ExprString(e)
 }
